@@ -513,3 +513,11 @@ def r04_7(ctx):
         ctx.ok("Disconnected -> Err", site=ctx.site(b, min(errs & reached)))
     else:
         ctx.violation(["disconnected-not-error"], "a disconnected worker channel does not lead to an error return", site=ctx.site(b, escapes[0] if escapes else 0))
+
+
+@rule("C04", "R04.8", floor=4)
+def r04_8(ctx):
+    """verify cannot succeed on a mismatch: each chunk is accepted only after rem >= len, a successful read_exact and a BYTE comparison
+    of the buffer with the chunk, and finishing requires rem == 0 (= C06 R06.2; a lossy or partial comparison is a false success)"""
+    import rules_io
+    rules_io.r06_2(ctx)
